@@ -63,4 +63,16 @@ PROPS = {
         "assumptions": ["float terms use values on a 1/16 grid, where a - b is exact, so |a-b| < EPSILON is decided on exact values",
                         "amino-acid and backbone name tables are taken from the regenerated Gen/NameTables.v (reference data, not part of the property)"],
     },
+    "C10": {
+        "translators": [],
+        "count": {"quick": 600, "thorough": 6000},
+        "rule": "random histories (1..5 operations, every tenth 1..30 (60 thorough)) over 70 operation forms of the six types: removal by predicate "
+                "(indexed predicate family) at every level, by index (in and out of range), by identifier / serial / name (sequential and parallel twins), "
+                "remove_empty (+par), remove_models_except / remove_all_models_except_first, join and extend at every level, add / insert, every setter "
+                "with valid and invalid values (NaN, infinities, negative, control characters, empty and blank text); the returned value and the full "
+                "snapshot (all atom fields) after every step are compared with the model.  non-trivial: every history; distinct = distinct case line; "
+                "per-operation counts in input_distribution",
+        "assumptions": ["an out-of-range index panics before the vector is touched (Vec::remove / insert assert first): the model returns Panic with the state unchanged and the history continues",
+                        "the theorems characterise each mutator for every structure; that the Rust methods are these functions is sampled"],
+    },
 }
